@@ -1,7 +1,8 @@
 import Desert.Evolution
 import Desert.Lemmas.Misc
+import Desert.Lemmas.Cross
 /-!
-# C03 — schema evolution: every writer/reader version pair gives the documented outcome (partial)
+# C03 — schema evolution: every writer/reader version pair gives the documented outcome
 
 `expectedRead dw dr v` (Desert/Evolution.lean) is the documented outcome table, written from the
 documentation of the four evolution steps without reference to bytes. The `hist` family asks the
@@ -9,11 +10,26 @@ driver for it on every generated (history, writer version, reader version, value
 value, error variant and field name — with what the real code does, and separately compares the
 real code with the operational model (`enc` with the writer's declaration, `dec` with the reader's).
 
-Proved here: properties of the table itself, the operational = table equation on the repository's
-own history for all 36 version pairs by evaluation (these are *tests inside the kernel*, labelled
-as such), and the general equation for headerless data read by its own definition. The general
-theorem `∀ legal H w r v, operational = expectedRead` needs the round trip of the chunked record
-layout, which is not yet a theorem; it is stated in the doc comment of `evolution_outcome_partial`.
+Proved here:
+* properties of the table itself (the seven clause theorems);
+* **the general equation** `evolution_outcome(_frame)`: for every pair of record definitions that
+  passes the decidable, value-independent check `pairAlignedB` (Desert/Align.lean: what "legal" means
+  for the chunked layout — every field the reader takes from the data sits, in order, in the chunk
+  the reader expects; a field the reader passes over is passed over for good, i.e. it was the last
+  one read of its chunk; names and announced positions agree) and **every value**, at top level or
+  embedded between sibling data, with any string table: reading what `dw` wrote with `dr` gives
+  exactly `expectedRead` — the value, or the first failing field's error — the reader's string table
+  ends equal to the writer's, and when the data carries a header exactly the record is consumed.
+  The check is evaluated by `decide` on all 25 pairs of the repository's own history below, and by
+  the driver on every generated (history, w, r) (`evidence: pairs-aligned`);
+* one exclusion of `pairAlignedB` is *necessary*, not a limit of the proof: a passed-over field
+  holding the first occurrence of a deduplicated string shifts every later string id. The witness
+  `skipped_dedup_breaks_outcome` proves the operational outcome differs from the documented one, and
+  the real code agrees with the operational model (known finding D17, `known_findings.txt`).
+
+Not covered by a theorem: evolution steps on a type *nested inside* the record being read with a
+different definition (the nested types are read with the definitions that wrote them); enum
+variants with evolution steps across versions (correspondence: `hist` / `decl`).
 -/
 set_option linter.unusedVariables false
 set_option linter.unusedSimpArgs false
@@ -114,5 +130,101 @@ example : operational hpEnv "HPointV4" "HPointV3" v4n = .error (.nonOptionalNone
 example : expectedRead hp4 hp3 v4n = .error (.nonOptionalNone "description") := by decide
 example : operational hpEnv "HPointV4" "HPointV4" v4s = expectedRead hp4 hp4 v4s := by decide
 example : operational hpEnv "HPointV4" "HPointV0" v4s = expectedRead hp4 hp0 v4s := by decide
+
+/-! ### the general equation -/
+
+/-- the outcome of a decoder run against a documented outcome -/
+def Agrees (run : Outcome (Val × AbsSrc)) (exp : Except Err Val) (Q : AbsSrc → Prop) : Prop :=
+  match exp with
+  | .ok x => ∃ s', run = .ok (x, s') ∧ Q s'
+  | .error e => run = .err e
+
+/-- **every aligned writer/reader pair, every value, anywhere in a stream**: reading what `dw` wrote
+with `dr` gives the documented outcome, leaves the string tables equal, and (stored version ≥ 1)
+consumes exactly the record — whatever follows (`t`) is untouched -/
+theorem evolution_outcome_frame (env : Env) (henv : EnvWF env) (idw idr : String) (dw dr : Decl)
+    (hfw : env.find idw = some (.record dw)) (hfr : env.find idr = some (.record dr))
+    (hal : pairAlignedB dw dr = true)
+    (v : Val) (st : EncSt) (b : Bytes) (st' : EncSt) (fuel : Nat)
+    (he : enc env (.named idw) v st = .ok (b, st')) (hu : v.utf8OK) (hst : StOK st) (hd : v.depth < fuel)
+    (s : AbsSrc) (t : Bytes) (hw : s.WF) (hv : s.view = b ++ t) (hs : s.strs = st) :
+    Agrees (runAbs (dec env fuel (.named idr)) s) (expectedRead dw dr (normalize env (.named idw) v))
+      (fun s' => s'.strs = st' ∧ (dw.steps ≠ [] → s' = s.after b.length st')) := by
+  have hwf := henv.rec_ idw dw hfw
+  unfold enc at he
+  simp only [hfw] at he
+  cases v with
+  | list items =>
+    simp only at he
+    simp only [Val.utf8OK] at hu
+    simp only [Val.depth] at hd
+    cases fuel with
+    | zero => omega
+    | succ f =>
+      have key := cross_record env (rt_wf env henv) dw dr hwf hal items st b st' f he hu hst (by omega) s t hw hv hs
+      simp only [dec, decTy, decNamed, hfr]
+      have hn : normalize env (.named idw) (.list items) = .list (normFields env dw.fields items) := by
+        simp [normalize, hfw]
+      rw [hn]
+      unfold XRec at key
+      unfold Agrees
+      simp only [expectedRead]
+      cases hexp : expectedFields dw dr (normFields env dw.fields items) dr.fields with
+      | ok xs => rw [hexp] at key; exact key
+      | error e => rw [hexp] at key; exact key
+  | _ => simp [illTyped] at he
+
+/-- top level: `deserialize::<R>(serialize(&w))` is the documented outcome, and with a header the
+data that follows the record is exactly what is left -/
+theorem evolution_outcome (env : Env) (henv : EnvWF env) (idw idr : String) (dw dr : Decl)
+    (hfw : env.find idw = some (.record dw)) (hfr : env.find idr = some (.record dr))
+    (hal : pairAlignedB dw dr = true) (v : Val) (b : Bytes) (st' : EncSt) (fuel : Nat)
+    (he : enc env (.named idw) v [] = .ok (b, st')) (hu : v.utf8OK) (hd : v.depth < fuel) (t : Bytes) :
+    Agrees (runAbs (dec env fuel (.named idr)) (AbsSrc.new (b ++ t))) (expectedRead dw dr (normalize env (.named idw) v))
+      (fun s' => dw.steps ≠ [] → s'.view = t) := by
+  have h := evolution_outcome_frame env henv idw idr dw dr hfw hfr hal v [] b st' fuel he hu (by simp [StOK]) hd
+    (AbsSrc.new (b ++ t)) t (WF_new _) (view_new _) rfl
+  unfold Agrees at h ⊢
+  cases hexp : expectedRead dw dr (normalize env (.named idw) v) with
+  | ok x =>
+    rw [hexp] at h
+    obtain ⟨s', h1, h2⟩ := h
+    exact ⟨s', h1, fun hne => by rw [h2.2 hne]; exact view_after_append (view_new _) _⟩
+  | error e => rw [hexp] at h; exact h
+
+/-! ### non-vacuity: the repository's own history -/
+
+/-- all 25 version pairs of the `Point` history are aligned -/
+theorem hpoint_pairs_aligned :
+    ([hp0, hp1, hp2, hp3, hp4].all fun w => [hp0, hp1, hp2, hp3, hp4].all fun r => pairAlignedB w r) = true := by decide +kernel
+
+theorem hpEnv_wf : EnvWF hpEnv := EnvWF_of_check (by decide +kernel)
+
+/-- … so e.g. every value written by version 4 is read by version 3 as the table says (unwrapped, or
+`NonOptionalFieldSerializedAsNone`), for all values — not just the two evaluated above -/
+theorem hpoint_v4_read_by_v3 (v : Val) (b : Bytes) (st' : EncSt) (fuel : Nat)
+    (he : enc hpEnv (.named "HPointV4") v [] = .ok (b, st')) (hu : v.utf8OK) (hd : v.depth < fuel) (t : Bytes) :
+    Agrees (runAbs (dec hpEnv fuel (.named "HPointV3")) (AbsSrc.new (b ++ t)))
+      (expectedRead hp4 hp3 (normalize hpEnv (.named "HPointV4") v)) (fun s' => hp4.steps ≠ [] → s'.view = t) :=
+  evolution_outcome hpEnv hpEnv_wf "HPointV4" "HPointV3" hp4 hp3 rfl rfl (by decide +kernel) v b st' fuel he hu hd t
+
+/-! ### the exclusion that is necessary: a passed-over deduplicated string (finding D17) -/
+
+def hd2 : Decl := ⟨"HDsV2", [⟨"z", .prim .dstring, .plain, none⟩, ⟨"c", .prim .dstring, .plain, some (.str [])⟩,
+  ⟨"d", .prim .dstring, .plain, some (.str [])⟩], [.added "c", .added "d"]⟩
+def hd3 : Decl := ⟨"HDsV3", [⟨"c", .prim .dstring, .plain, some (.str [])⟩, ⟨"d", .prim .dstring, .plain, some (.str [])⟩],
+  [.added "c", .added "d", .removed "z"]⟩
+def hdEnv : Env := [("HDsV2", .record hd2), ("HDsV3", .record hd3)]
+/-- z = "p", c = "q", d = "p" -/
+def vd : Val := .list (.vcons (.str [112]) (.vcons (.str [113]) (.vcons (.str [112]) .vnil)))
+
+/-- a legal history (the removed field is the only one of its chunk), both definitions well-formed,
+and yet the reader's `d` is "q" where "p" was written: the removed field held the first occurrence
+of "p", the reader never registers it, so the back-reference 1 resolves to "q" -/
+theorem skipped_dedup_breaks_outcome :
+    envWFb hdEnv = true ∧
+    operational hdEnv "HDsV2" "HDsV3" vd = .ok (.list (.vcons (.str [113]) (.vcons (.str [113]) .vnil))) ∧
+    expectedRead hd2 hd3 vd = .ok (.list (.vcons (.str [113]) (.vcons (.str [112]) .vnil))) ∧
+    pairAlignedB hd2 hd3 = false := by decide +kernel
 
 end C03
